@@ -79,6 +79,21 @@ def step (_ : Unit) (fields : List String) (impl : String) : Unit × Drv.Reply :
         | none => false
       ((), Drv.Reply.det (showObs reply mo) impl (holds c mo) okI)
     | _, _, _, _ => ((), Drv.Reply.bad)
+  | ["reconnect", reply, _] =>
+    match parseReply reply with
+    | some r =>
+      let (me, ms) := modelReconnect r
+      let showE : Option Bool → String
+        | none => "nil" | some true => "perm" | some false => "err"
+      let mstr := reply ++ " 2 " ++ showE me ++ " " ++ toString ms
+      let okI := match impl.splitOn " " with
+        | [_, _, e, a] =>
+          (match (if e == "nil" then some none else if e == "perm" then some (some true) else if e == "err" then some (some false) else none), a.toNat? with
+           | some e, some a => holdsReconnect r e a
+           | _, _ => false)
+        | _ => false
+      ((), Drv.Reply.det mstr impl (holdsReconnect r me ms) okI)
+    | none => ((), Drv.Reply.bad)
   | _ => ((), Drv.Reply.bad)
 
 def handler : Handler := ⟨Unit, fun _ => (), step⟩
